@@ -260,6 +260,16 @@ func exprOfValue(v ssa.Value) string {
 		if x.Comment != "" {
 			return x.Comment
 		}
+	case *ssa.Call:
+		return calleeName(x.Common()) + "()"
+	case *ssa.Extract:
+		return exprOfValue(x.Tuple)
+	case *ssa.TypeAssert:
+		return exprOfValue(x.X)
+	case *ssa.Phi:
+		if x.Comment != "" {
+			return x.Comment
+		}
 	}
 	return v.Name()
 }
